@@ -335,10 +335,13 @@ def run_case(case):
 
     chooser = detsched.make_chooser(tuple(case['chooser']), case['seed'])
     try:
-        v, e, s = detsched.run(main, chooser, max_steps=case.get('max_steps', 30000))
+        v, e, s = detsched.run(main, chooser, max_steps=case.get('max_steps', 12000))
     finally:
         CTX = None
-    res = dict(events=[list(x) for x in ctx.ev], steps=s.steps, switches=s.switches,
+    evs = [list(x) for x in ctx.ev]
+    if e is not None and len(evs) > 700:
+        evs = evs[:700]          # a hung run spins; the prefix is what gets validated and stored
+    res = dict(events=evs, steps=s.steps, switches=s.switches,
                trace=s.trace if case.get('keep_trace') else None, max_ahead=st['max_ahead'],
                outs=[[x - BASE if isinstance(x, int) else repr(x) for x in o] for o in outs], ends=ends,
                monitors=[], completed=e is None)
